@@ -153,7 +153,7 @@ def spec_strategy(heavy: bool):
             st.builds(
                 lambda k, m, f: ['APPLY', k, m, f],
                 small,
-                st.sampled_from(['eager', 'eager', 'eager', 'eager', 'jit', 'fjit']),
+                st.sampled_from(['eager', 'eager', 'eager', 'eager', 'jit', 'fjit', 'jarg']),
                 st.sampled_from([None, None, None, 'seam-mem', 'seam-rt', 'stdout']),
             )
         )
